@@ -897,7 +897,7 @@ def shrink_case(case, kind, chk_sql):
 
 
 def run(tier, rng):
-    n = int(os.environ.get('C12_N', 0)) or (140 if tier == 'quick' else 1500)
+    n = int(os.environ.get('C12_N', 0)) or (140 if tier == 'quick' else 1200)
     os.makedirs(TMP, exist_ok=True)
     cases = make_cases(rng, n, tier)
     results = evaluate(cases, 'c12')
